@@ -52,6 +52,25 @@ fn abi_config(c: &str) -> bool {
     with_str(c, |p, l| loader_shim::load_config(p, l))
 }
 
+/// the ABI glue for other monitors (C08 loader part, C12, C14)
+pub mod abi {
+    pub fn init() {
+        super::abi_init()
+    }
+    pub fn config(c: &str) -> bool {
+        super::abi_config(c)
+    }
+    pub fn initiate(path: &str, src: &str) -> usize {
+        super::abi_initiate(path, src)
+    }
+    pub fn load(t: usize, path: &str, src: &str) -> bool {
+        super::abi_load(t, path, src)
+    }
+    pub fn read_result() -> String {
+        super::read_result()
+    }
+}
+
 // ------------------------------------------------------------------ history language
 
 /// source pool: (path, text)
